@@ -184,7 +184,7 @@ var c12HostileKeys = []string{"k", "k2", "../x", "a/../../b", "..", "../../sys/t
 func isDescendantOrSelf(child, parent string) bool { return strings.HasPrefix(child, parent) }
 
 func TestVerif_C12_Confinement(t *testing.T) {
-	rec := verifx.NewRecorder("C12", "confinement", "a core with namespaces a/, optionally a/b/, and a separately sealed namespace s/; a recording backend mounted twice per namespace (and at a nested path in the root); a broad-policy token and a child token per namespace; actions: backend requests whose storage key is client-controlled (hostile keys: '..', absolute, other mounts' prefixes, NUL, empty, unicode) in every operation, with every namespace's token in every namespace, namespace by context or path prefix; cubbyhole writes and reads by every other token; seal/unseal of s/; oracle: every physical key touched by the goroutine running a backend handler lies under that mount's own storage prefix; reads never return a value written through another mount; a token works only in its own namespace and below; cubbyhole values reach only their writer; a sealed namespace serves nothing and no storage operation falls under its prefix; non-trivial = a hostile key or a cross-namespace / cross-token attempt that reached routing")
+	rec := verifx.NewRecorder("C12", "confinement", "a core with namespaces a/, optionally a/b/, and a separately sealed namespace s/; a recording backend mounted twice per namespace (and at a nested path in the root); a broad-policy token and a child token per namespace; actions: backend requests whose storage key is client-controlled (hostile keys: '..', absolute, other mounts' prefixes, NUL, empty, unicode) in every operation, with every namespace's token in every namespace, namespace by context or path prefix; cubbyhole writes and reads by every other token; seal/unseal of s/; restart of the server on the same storage; oracle: every physical key touched by the goroutine running a backend handler lies under that mount's own storage prefix; reads never return a value written through another mount; a token works only in its own namespace and below; cubbyhole values reach only their writer; a sealed namespace serves nothing and no storage operation falls under its prefix; non-trivial = a hostile key or a cross-namespace / cross-token attempt that reached routing")
 	defer rec.Flush()
 	rapid.Check(t, func(rt *rapid.T) {
 		defer recoverWedged(rec)
@@ -192,6 +192,7 @@ func TestVerif_C12_Confinement(t *testing.T) {
 		defer func() { w.tc.shutdown() }()
 		tc := w.tc
 		nontrivial := false
+		restarts := 0
 		hostileN, crossNS, cubbyN, sealedN := 0, 0, 0, 0
 		fail := func(sig, msg string) {
 			rec.Violation(rt, sig, map[string]any{"history": w.log}, "%s; history=%v", msg, w.log)
@@ -471,6 +472,30 @@ func TestVerif_C12_Confinement(t *testing.T) {
 				}
 				m.physPfx = newPfx
 				nontrivial = true
+			},
+			// the server is restarted on the same storage: mounts, remounts, tokens and cubbyholes are where they were,
+			// the separately sealed namespace comes back sealed
+			"restart": func(rt *rapid.T) {
+				if restarts >= 1 {
+					rt.Skip("enough restarts")
+				}
+				restarts++
+				w.tc.shutdown()
+				ntc, err := w.tc.restartOn(w.tc.phys)
+				if err != nil {
+					fail("restart-failed", fmt.Sprintf("core does not restart: %v", err))
+					return
+				}
+				w.tc, tc = ntc, ntc
+				for _, n := range w.nss {
+					if n.sealable {
+						n.sealed = true
+						if !ntc.c.NamespaceSealed(n.ns) {
+							fail("sealable-namespace-unsealed-after-restart", fmt.Sprintf("namespace %s has its own seal but is unsealed right after a restart", n.path))
+						}
+					}
+				}
+				w.logf("restart")
 			},
 			"seal-toggle": func(rt *rapid.T) {
 				var s *c12NS
